@@ -39,6 +39,8 @@ ATOMS = [
     ("fstatic", "+", ["functionStatic"], "class C{n} {{ public: int g(){{ return 1; }} int m; C{n}():m(0){{}} }};"),
     ("contoob", "+", ["containerOutOfBoundsIndexExpression"], "void f{n}(std::vector<int>&v){{ v[v.size()]=0; }}"),
 ]
+# directives whose messages carry non-ASCII bytes verbatim (stress for the inter-process encoding and the text channel)
+UTF8_ATOMS = ['#include "h\u00e4der{n}.h"', '#ifdef CFG_U{n}\n#error \u00fcml\u00e4ut {n} \u4e2d\n#endif', '#include <sys/\u00fc{n}.h>']
 ATOM_BY_NAME = {a[0]: a for a in ATOMS}
 BENIGN = ["int ok{n}(int a){{ return a+1; }}", "/* filler {n} */", "static int sv{n} = 3; int get{n}(void){{ return sv{n}; }}"]
 
@@ -131,7 +133,7 @@ WEIRD_NAMES = ["sp ace.c", "quo'te.c", "a.b.c", "eq=ual.c", "pl+us.c", "com,ma.c
 
 
 def gen_project(rng, n_units=None, wp=True, inline=0.25, headers=True, weird_names=0.0, big=0.0, cfg_blocks=0.3,
-                atoms=None, same_basename=0.0, lang_mix=True, max_atoms=5):
+                atoms=None, same_basename=0.0, lang_mix=True, max_atoms=5, utf8=0.0):
     """Returns dict(tree={path:[chunks]}, units=[paths in command-line order], langs={path:lang})."""
     ctr = Counter()
     nu = n_units or rng.randint(1, 6)
@@ -211,6 +213,8 @@ def gen_project(rng, n_units=None, wp=True, inline=0.25, headers=True, weird_nam
             chunks.append("#ifdef CFG_A\nint fa%d(int y){return y/0;}\n#endif" % n)
             if rng.chance(0.5):
                 chunks.append("#ifdef CFG_B\nvoid fb%d(void){int q[2];q[2]=0;}\n#endif" % n)
+        if rng.chance(utf8):
+            chunks.insert(rng.below(len(chunks) + 1) if lang == "c" else len(chunks), rng.choice(UTF8_ATOMS).format(n=ctr.next()))
         if rng.chance(big):
             n = ctr.next()
             ln = rng.choice([3000, 5000, 40000])
